@@ -108,7 +108,9 @@ func IsCodeField(message proto.Message) bool {
 	if field != nil {
 		allowedKinds := []protoreflect.Kind{protoreflect.EnumKind, protoreflect.StringKind}
 		isValidFieldType := slices.Includes(allowedKinds, field.Kind())
-		return strings.HasSuffix(name, "Code") && isValidFieldType
+		// (a bound code element that is itself named "code" is generated as ...CodeType,
+		// e.g. OperationOutcome.Issue.CodeType)
+		return (strings.HasSuffix(name, "Code") || strings.HasSuffix(name, "CodeType")) && isValidFieldType
 	}
 	return false
 }
